@@ -201,7 +201,11 @@ func OpenBucket(urlStr string, bucketName string, mode OpenMode) (b *Bucket, err
 	exists, bucketCopy := registerBucket(bucket)
 	// someone else beat registered the bucket in the registry, that's OK we'll close ours
 	if exists {
-		bucket.Close(ctx)
+		// keep the reference registerBucket just took for the copy returned below; only discard our own connection
+		bucket.mutex.Lock()
+		bucket._closeSqliteDB()
+		bucket.closed = true
+		bucket.mutex.Unlock()
 	}
 	// only schedule expiration if bucket is not new. This doesn't need to be locked because only one bucket will execute this code.
 	if vers != 0 {
